@@ -93,8 +93,9 @@ Definition prop_step (q : ostate) (o : op) (n : sobs) : bool :=
           | None => true
           end)
   | CheckoutMove b =>
-    Bool.eqb (b_other n) b && negb (Bool.eqb b (b_other p))
-    && tbl_kept 1 p n && tbl_kept 2 p n                      (* no uncommitted change of the source is lost *)
+    Bool.eqb (b_other n) b
+    && (if Bool.eqb b (b_other p) then same_roots p n
+        else tbl_kept 1 p n && tbl_kept 2 p n)               (* no uncommitted change of the source is lost *)
   | _ => true
   end.
 
